@@ -308,6 +308,8 @@ def h03_redis_stop(S, max_step=140):
     n_msgs = 2
     k = S.pick("stop_at_loop_step", max_step) + 1
     g = Fraction(2, 1000) if S.flag("graceful_period_shorter_than_actor") else Fraction(20, 1000)
+    # an actor may need a moment to unwind when it is cancelled (closing a connection, rolling back)
+    slow_cancel = S.flag("actor_takes_50ms_to_unwind_when_cancelled")
     S.tag("kind", KINDS[kind])
     out = {}
     runs = []
@@ -321,7 +323,12 @@ def h03_redis_stop(S, max_step=140):
         @r.actor(converter=BasicConverter, retry_policy=lambda retry_number=1: real_timedelta(seconds=30))
         async def job(i: int):
             runs.append(i)
-            await asyncio.sleep(Fraction(5, 1000))
+            try:
+                await asyncio.sleep(Fraction(5, 1000))
+            except asyncio.CancelledError:
+                if slow_cancel:
+                    await asyncio.sleep(Fraction(50, 1000))
+                raise
             if kind:
                 raise ValueError("x")
 
@@ -347,6 +354,8 @@ def h03_redis_stop(S, max_step=140):
             out["returned"] = False
         out["elapsed"] = loop.time() - fired["t"] if "t" in fired else None
         loop.iter_hook = prev
+        # the process may exit as soon as run() has returned: what is in flight now stays in flight
+        out["in_flight_at_return"] = sorted(i for i, v in fr.redis_places(srv).items() if "processing" in place_names({i: v}, i))
         await asyncio.sleep(Fraction(1, 2))
         out["places"] = fr.redis_places(srv)
         out["msgs"] = {f"m{i}": fr.redis_message(srv, __import__("repid").data._key.RoutingKey(topic="job", queue="default", id_=f"m{i}")) for i in range(n_msgs)}
@@ -358,6 +367,8 @@ def h03_redis_stop(S, max_step=140):
         return
     S.cover("stopped")
     S.check("returns-within-graceful-period-plus-slack", out["elapsed"] <= g + 6 + Fraction(1, 100), info=str(out["elapsed"]))
+    S.check("nothing-in-flight-at-the-moment-run-returns", out["in_flight_at_return"] == [],
+            info=f"still marked in flight when Worker.run() returned: {out['in_flight_at_return']} (runs={runs})")
     for i in range(n_msgs):
         mid = f"m{i}"
         names = place_names(out["places"], mid)
